@@ -114,6 +114,9 @@ def build_holder(d):
                                           indexTagNames=bool(i[3]))
         for a in d.get('attr_idx', []):
             p.addIndexOnAttribute(a)
+    elif d['holder'] == 'validating':
+        from AdvancedHTMLParser.Validator import ValidatingAdvancedHTMLParser
+        p = ValidatingAdvancedHTMLParser()
     else:
         p = AHP.AdvancedHTMLParser()
     html = render_html(d['tree'])
